@@ -95,6 +95,10 @@ CONFIGS = [
     cfg("total_q", [["build"], ["elideset", "compressone"], ["assertions", "compress", "encrypt", "navigate", "wrap", "lookup", "salt", "elideone"]],
         atoms=("a1",), nreg=1, maxsize=14, maxt=1, inv=("WellFormedInv",), props=("C02Prop", "C07Prop"),
         shapes="Decorated(%s) \\cup NodeSubjectNodes(%s, 9) \\cup {e \\in Sh(%s, 5) : IsNode(e)}" % (B1, B1, B2)),
+    # expressions, requests, responses, events (C18)
+    cfg("expr_q", [["build"], ["expr_build"], ["malform", "obs_parse", "codec"], ["obs_parse"]],
+        atoms=("a1",), nreg=1, maxsize=30, maxt=1, inv=("WellFormedInv",), props=("C18Prop",),
+        shapes="{Leaf(V(\"a1\")), KV(1), Wrap(Leaf(V(\"a1\")))} \\cup {e \\in Sh(%s, 5) : IsNode(e)} \\cup {Elided(H(<<\"cbor\", V(\"a1\")>>, {})), Assn(KV(1), Leaf(V(\"a1\")))}" % (B1,)),
     # an assertion and its obscured twin
     cfg("twin_q", [["build"], ["navigate"], ["elideone", "compressone", "navigate"], ["assertions"]], maxsize=9, maxt=1,
         shapes="{e \\in ShUpTo(%s, 5) : IsNode(e)}" % B2),
